@@ -105,6 +105,20 @@ func keyEmuCoincideScenario(mode string) *Desc {
 	return d
 }
 
+// keyEmuBecomesCCScenario: the axis emulates keys in one mapping and is a controller in the next; the stick is held across
+// the switch and comes back to centre there, with CC-learning on or off (its gate looks at controller axes)
+func keyEmuBecomesCCScenario(mode string) *Desc {
+	d := base("keyemu-becomes-cc", mode)
+	pos := []int32{-1, 0, 1}
+	d.Mappings = []MapDesc{
+		{Name: "M0", Keys: km{K1: {40, 0}}, Axes: []AxisDesc{{Name: "ABS_HAT0X", Type: "key", Note: 60, NoteNeg: 62, Min: -1, Max: 1, Deadzone: 0, Pos: pos}}},
+		{Name: "M1", Keys: km{K1: {41, 0}}, Axes: []AxisDesc{{Name: "ABS_HAT0X", Type: "cc", CC: 20, CCNeg: 21, Min: -1, Max: 1, Deadzone: 0, Pos: pos}}},
+		{Name: "M2", Keys: km{K1: {42, 0}}, Axes: []AxisDesc{{Name: "ABS_HAT0X", Type: "pitch_bend", CCNeg: -1, Min: -1, Max: 1, Deadzone: 0, Pos: pos}}},
+	}
+	acts(d, MU, "mapping_up", MD, "mapping_down", LE, "cc_learning")
+	return d
+}
+
 // keyEmuSubScenario: two sub-handlers of one device deliver the same axis code, both emulate keys with it
 func keyEmuSubScenario() *Desc {
 	d := base("keyemu-subhandlers", "interrupt")
